@@ -437,6 +437,19 @@ Definition excl_on (ks : list keyspec) (W : bool) (SC : bytes) : Prop :=
 Definition ph_on (ks : list keyspec) (W : bool) (SC : bytes) : Prop :=
   forall k d, In k ks -> sighash W 1 SC = Some d -> verifies (pub pub_of k) d (removelast gen_c05_placeholder) = false.
 
+(* the unrestricted hypotheses of Props/C05.v imply the restricted ones *)
+Lemma rel_from_unrestricted :
+  (forall se c d, verifies (pub_of se c) d (sign se d) = true) ->
+  (forall se d t, strict_der (sign se d ++ [t]) = true /\ low_s (sign se d ++ [t]) = true) ->
+  (forall se, is_compressed (pub_of se true) = true /\ is_uncompressed (pub_of se false) = true) ->
+  forall ks W SC, sv_on ks W SC /\ canon_on ks W SC /\ pubwf_on ks.
+Proof.
+  intros H1 H2 H3 ks W SC. split; [|split].
+  - intros k c d _ _. apply H1.
+  - intros k d t _ _. apply H2.
+  - intros k _. apply H3.
+Qed.
+
 Lemma commit_ms kd m ks : is_ms_kind kd ->
   commit (pz_ms pub_of kd m ks) = (kwit kd, ms_script m (map (pub pub_of) ks)).
 Proof. intros [ -> | [ -> | [ -> | -> ] ] ]; reflexivity. Qed.
